@@ -2,12 +2,14 @@ import os
 import re
 
 from . import streams_codec
+from . import streams_partmeshb
 from .common import LEAN
 
 ID = 'C20'
-PROPS_MODULE = 'Refine.Props.C20'
+PROPS_MODULE = ['Refine.Props.C20', 'Refine.Props.C20PartMeshb']
 STREAMS = [streams_codec.C20_MESHB, streams_codec.C20_SOLB, streams_codec.C20_ROBUST,
-           streams_codec.C20_HANG, streams_codec.C20_INDEX, streams_codec.C20_COUNT, streams_codec.C20_NAMES]
+           streams_codec.C20_HANG, streams_codec.C20_INDEX, streams_codec.C20_COUNT, streams_codec.C20_NAMES,
+           streams_partmeshb.C20, streams_partmeshb.READ]
 EXPLANATION = (
     'Obligations on the reader models (Refine/Props/C20.lean): totality; accepted_counts_fit; header_progress + '
     'header_scan_returns (every hop of the keyword scan moves strictly forward, so the scan returns on every byte '
